@@ -57,7 +57,7 @@ def run(ctx):
         n = int(rng.integers(4, 7))
         # the two vectors need not be sampled equally finely (a ratio of 5 and more is where a shared boundary cushion once failed)
         n2 = [n, int(rng.integers(3, 17)), 5 * n, 5 * n + int(rng.integers(1, 4))][int(rng.integers(0, 4))]
-        n = (n, n2)
+        n = (n, n2) if rng.random() < .6 else (n2, n)          # the finer direction may be a1 as well as a2
         E = rng.integers(0, 21, n).astype(float)
         st = settings[int(rng.integers(0, 4))]
         edge = bool(rng.random() < .5)
@@ -139,6 +139,25 @@ def run(ctx):
             import traceback
             tb = traceback.extract_tb(e.__traceback__)[-1]
             ctx.violation('GammaSurface raised %s at %s:%s' % (excname(e), tb.filename.split('/')[-1], tb.name), repr(e)[:200] + ' ' + tag)
+    # ---- the arctangent model profiles: the normalised density integrates to one Burgers vector over the window and is the derivative
+    #      of the disregistry, wherever the dislocation is centred
+    try:
+        from atomman.defect import pn_arctan_disldensity
+        for ctr in (0.0, -11.0, 6.5):
+            for hw in (1.5, 4.0):
+                bb = np.array([2.5, 0.0, 1.0])
+                xr, rho = pn_arctan_disldensity(xmax=40.0, xstep=0.125, burgers=bb, center=ctr, halfwidth=hw, normalize=True)
+                xd, dd_ = pn_arctan_disregistry(xmax=40.0, xstep=0.125, burgers=bb, center=ctr, halfwidth=hw, normalize=True)
+                tot = (dd_[-1] - dd_[0])
+                integ = np.trapezoid(rho, xr, axis=0) if hasattr(np, 'trapezoid') else np.trapz(rho, xr, axis=0)
+                mid = (dd_[2:] - dd_[:-2]) / (xd[2:] - xd[:-2])[:, None]
+                ctx.count()
+                ctx.nontriv(('arctan', ctr, hw))
+                if np.abs(tot - bb).max() > 1e-9 or np.abs(integ - bb).max() > 2e-3 * np.abs(bb).max() or np.abs(mid - rho[1:-1]).max() > 1e-2 * np.abs(rho).max():
+                    ctx.violation('arctangent profile: normalised density and disregistry do not describe one Burgers vector',
+                                  'center %r halfwidth %r: integral %s, disregistry range %s' % (ctr, hw, np.round(integ, 5).tolist(), np.round(tot, 5).tolist()))
+    except Exception as e:
+        ctx.violation('arctangent profile functions raised %s' % excname(e), repr(e)[:200])
     # ---- Peierls-Nabarro ---------------------------------------------------------------------------------------------------
     C_cub = am.ElasticConstants(C11=uc.set_in_units(110, 'GPa'), C12=uc.set_in_units(60, 'GPa'), C44=uc.set_in_units(30, 'GPa'))
     C_iso = am.ElasticConstants(C11=uc.set_in_units(100, 'GPa'), C12=uc.set_in_units(40, 'GPa'))
